@@ -2,6 +2,8 @@
  * and rounding.txt: exact positions in 64/128-bit integers, nearest = floor(x - e), bilinear with
  * 7-bit weights, convolution alignment, repeat maps written from their definitions. */
 #include "vf.h"
+/* run for C04 (--prop C04) the sampling oracles stay silent: that run only watches memory safety (ASan / guard pages around the source) */
+#define vf_violation(...) do { if (!strcmp (vf.prop, "C08")) (vf_violation) (__VA_ARGS__); } while (0)
 #include "vf_req.h"
 #include "ref_pixel.h"
 #include <math.h>
@@ -99,7 +101,7 @@ static void c08_case (long idx, vf_rng *r)
     rq_gen_filter (r, s, VF_PICK (r, filters));
     s->repeat = (int)(vf_next (r) % 4);
     /* very wide sources (positions near the ends of the 16.16 range) */
-    int wide_src = 0;
+    int wide_src = 0, tight_rot = 0;
     if ((s->tr_class == TR_SCALE_POS || s->tr_class == TR_SCALE_ANY) && vf_chance (r, 1, 6)) {
         wide_src = 1; s->w = (int)vf_range (r, 12000, 32766); s->h = (int)vf_range (r, 1, 2);
         if (PIXMAN_FORMAT_BPP (s->fmt) < 8) s->fmt = PIXMAN_a8;
@@ -108,10 +110,29 @@ static void c08_case (long idx, vf_rng *r)
     /* destination clipped into several runs so that run starts vary */
     if (vf_chance (r, 1, 3)) { d->n_clip = (int)vf_range (r, 1, 4); for (int i = 0; i < d->n_clip; i++) { int x1 = (int)vf_range (r, 0, d->w - 1); d->clip[i].x1 = x1; d->clip[i].x2 = x1 + (int)vf_range (r, 1, 12); d->clip[i].y1 = (int)vf_range (r, 0, d->h - 1); d->clip[i].y2 = d->clip[i].y1 + (int)vf_range (r, 1, 3); } }
     q.op = PIXMAN_OP_SRC; q.w = d->w; q.h = d->h;
+    /* wrap-around exactly at the source width: a narrow NORMAL-repeat source walked at a scale of 1, 1/2 or 2 from a position that is a whole
+     * pixel, or one unit (1/65536) to either side of it, so that the running coordinate hits k * width (+-1 unit) many times per row */
+    int wrap_class = 0;
+    if (!wide_src && !tight_rot && vf_chance (r, 1, 8)) {
+        static const pixman_fixed_t scs[] = { 65536, 65536, 32768, 131072, 65536 / 4 }; static const pixman_fixed_t frs[] = { 0x8000, 0x8001, 0x7fff, 0x8001, 0 };
+        s->tr_class = TR_SCALE_POS; pixman_transform_init_identity (&s->tr); s->tr.matrix[0][0] = VF_PICK (r, scs); s->tr.matrix[1][1] = vf_chance (r, 1, 2) ? 65536 : VF_PICK (r, scs);
+        s->tr.matrix[0][2] = (pixman_fixed_t)(vf_range (r, -3, 9) * 65536) + VF_PICK (r, frs); s->tr.matrix[1][2] = (pixman_fixed_t)(vf_range (r, -2, 4) * 65536) + VF_PICK (r, frs);
+        s->repeat = PIXMAN_REPEAT_NORMAL; s->w = (int)vf_range (r, 1, 9); s->h = (int)vf_range (r, 1, 5); if (vf_chance (r, 2, 3)) s->fmt = PIXMAN_a8r8g8b8;
+        s->filter = vf_chance (r, 2, 3) ? PIXMAN_FILTER_NEAREST : PIXMAN_FILTER_BILINEAR; s->n_params = 0; q.sx = (int)vf_range (r, 0, 3); q.sy = 0; wrap_class = 1;
+    }
     /* OVER (exact 8-bit rule on the a8r8g8b8 destination) for the exactly judged classes: the scaled fast paths have separate OVER routines */
-    int use_over = s->tr_class != TR_PROJECTIVE && (s->filter == PIXMAN_FILTER_NEAREST || s->filter == PIXMAN_FILTER_BILINEAR) && vf_chance (r, 1, 3);
+    int use_over = s->tr_class != TR_PROJECTIVE && (s->filter == PIXMAN_FILTER_NEAREST || s->filter == PIXMAN_FILTER_BILINEAR) && vf_chance (r, 1, wrap_class ? 2 : 3);
     if (use_over) q.op = PIXMAN_OP_OVER; q.sx = (int)vf_range (r, -3, 5); q.sy = (int)vf_range (r, -2, 3);
     if (vf_chance (r, 1, 2)) q.sx = q.sy = 0;
+    /* exact quarter turns that map the request rectangle exactly onto the source (the outermost samples are the source's border pixels),
+     * about a centre on the pixel grid or half-way between: a sampler that steps one row or column too far leaves the image */
+    if ((s->tr_class == TR_ROT90 || s->tr_class == TR_ROT180 || s->tr_class == TR_ROT270) && !wide_src && vf_chance (r, 1, 2)) {
+        static const pixman_fixed_t fr[] = { 0, 0x8000, 0x8000, 0x4000, 0xc000 }; pixman_fixed_t fx = VF_PICK (r, fr), fy = VF_PICK (r, fr);
+        q.sx = q.sy = 0;
+        if (s->tr_class == TR_ROT180) { s->w = d->w; s->h = d->h; s->tr.matrix[0][2] = d->w * 65536 + fx; s->tr.matrix[1][2] = d->h * 65536 + fy; }
+        else { s->w = d->h; s->h = d->w; if (s->tr_class == TR_ROT90) { s->tr.matrix[0][2] = d->h * 65536 + fx; s->tr.matrix[1][2] = fy; } else { s->tr.matrix[0][2] = fx; s->tr.matrix[1][2] = d->w * 65536 + fy; } }
+        tight_rot = 1;
+    }
     if (wide_src) {
         double sc = (double)s->w / d->w * (0.3 + vf_unit (r));
         int neg = s->tr.matrix[0][0] < 0;
@@ -228,7 +249,7 @@ static void c08_case (long idx, vf_rng *r)
     vf_count ("evaluations", npx);
     vf_count (affine ? (conv ? "pixels_affine_convolution" : "pixels_affine_exact") : "pixels_projective", npx);
     if (masked) vf_count ("masked_cases", 1); if (use_over) vf_count ("over_cases", 1);
-    if (wide_src) vf_count ("wide_source_cases", 1);
+    if (wide_src) vf_count ("wide_source_cases", 1); if (tight_rot) vf_count ("tight_quarter_turn_cases", 1); if (wrap_class) vf_count ("wrap_exactly_at_width_cases", 1);
     vf_count ("samples_on_a_boundary", nboundary); vf_count ("projective_not_judged", nambig);
     vf_label ("filter_repeat_transform", "%s/%s/%s", fname, rq_repeat_name (s->repeat), rq_tr_name[s->tr_class]);
     vf_cell ("cells", vf_mix (vf_mix ((uint64_t)s->fmt, s->filter * 16 + s->repeat), vf_mix (s->tr_class, (s->w <= 2) * 2 + (s->h <= 2) + 4 * (d->n_clip > 0))));
